@@ -1,2 +1,6 @@
 package evid
-import (_ "pgregory.net/rapid"; _ "github.com/llir/llvm/asm")
+
+import (
+	_ "github.com/llir/llvm/asm"
+	_ "pgregory.net/rapid"
+)
